@@ -495,6 +495,68 @@ def binding_tables(common, fp, sf):
     return [r for r, _ in roles], attrs, first_match, stub_names
 
 
+def external_tables(common, fp, sf):
+    """(sorted names of the dict-valued attributes of a module that `obj2dict` writes and `dict2obj` reads back as
+    tables, is an entry built from ITS OWN item and stored under ITS key?, is an entity that is external in the
+    exporting project written as null and skipped?) - observed by sending a stub project through the real
+    `obj2dict` / JSON / `dict2obj`, not read from the source."""
+    import json
+    import types as _types
+    from ford.settings import ProjectSettings
+    import ford.external_project as ep
+
+    with common.scratch_dir("ford-c06-ext-") as d:
+        f = d / "extprobe.f90"
+        f.write_text("module extprobe_o\n  implicit none\n  type :: t\n    integer :: c\n  end type t\n  integer :: v\n"
+                     "  abstract interface\n    subroutine a()\n    end subroutine a\n  end interface\n"
+                     "contains\n  subroutine s()\n  end subroutine s\n  subroutine gone()\n  end subroutine gone\nend module extprobe_o\n"
+                     "module extprobe_w\n  use extprobe_o, only: x => s, xt => t, xv => v, xa => a, gone\n  implicit none\n"
+                     "  type :: t\n    integer :: c\n  end type t\n  integer :: v\n"
+                     "contains\n  subroutine s()\n  end subroutine s\nend module extprobe_w\n")
+        sf.namelist = sf.NameSelector()
+        orig_find = fp.find_all_files
+        fp.find_all_files = lambda settings: [f]
+        try:
+            with common.quiet():
+                settings = ProjectSettings(src_dir=[d], preprocess=False, dbg=False, warn=False, quiet=True, graph=False,
+                                           search=False, incl_src=False, display=["public", "protected", "private"])
+                project = fp.Project(settings)
+                project.correlate()
+                mods = {m.name.lower(): m for m in project.modules}
+                o, w = mods["extprobe_o"], mods["extprobe_w"]
+                url = {(m.name.lower(), lst, e.name.lower()): str(e.get_url()) for m in (o, w)
+                       for lst in ("subroutines", "types", "variables", "absinterfaces") for e in getattr(m, lst)}
+                # an entity that the exporting project itself holds as external
+                next(e for e in o.subroutines if e.name.lower() == "gone").external_url = "https://example.org/gone"
+                dumped = json.loads(json.dumps([ep.obj2dict(m) for m in project.modules]))
+        except Exception as e:  # noqa
+            raise LookupError(f"external probe: the stub project cannot be externalized ({type(e).__name__}: {e})")
+        finally:
+            fp.find_all_files = orig_find
+        jw = next((x for x in dumped if str(x.get("name", "")).lower() == "extprobe_w"), None)
+        if jw is None:
+            raise LookupError("external probe: obj2dict no longer writes a module under its name")
+        tables = sorted(k for k, v in jw.items() if isinstance(v, dict))
+        host = _types.SimpleNamespace(extModules=[], extProcedures=[], extTypes=[], extVariables=[])
+        try:
+            with common.quiet():
+                loaded = ep.dict2obj(host, jw, d)
+        except Exception as e:  # noqa
+            raise LookupError(f"external probe: dict2obj cannot read what obj2dict wrote ({type(e).__name__}: {e})")
+
+        def at(table, key):
+            x = getattr(loaded, table, {}).get(key)
+            return None if x is None else str(getattr(x, "external_url", "")).replace(str(d) + "/", "")
+
+        want = {("pub_procs", "x"): url["extprobe_o", "subroutines", "s"], ("pub_procs", "s"): url["extprobe_w", "subroutines", "s"],
+                ("pub_types", "xt"): url["extprobe_o", "types", "t"], ("pub_types", "t"): url["extprobe_w", "types", "t"],
+                ("pub_vars", "xv"): url["extprobe_o", "variables", "v"], ("pub_vars", "v"): url["extprobe_w", "variables", "v"],
+                ("pub_absints", "xa"): url["extprobe_o", "absinterfaces", "a"]}
+        from_item = all(at(t, k) == u for (t, k), u in want.items())
+        dropped = jw.get("pub_procs", {}).get("gone", "absent") is None and at("pub_procs", "gone") is None
+    return tables, from_item, dropped
+
+
 def translate(common):
     common.import_ford()
     import ford.fortran_project as fp
@@ -535,7 +597,17 @@ def translate(common):
               f"def bindingFirstMatch : Bool := {'true' if first_match else 'false'}",
               "/-- default keys of `ProjectSettings().extra_mods` (every project gets one empty ExternalModule for each) -/",
               "def intrinsicModNames : List (List Char) := [" + ",\n  ".join(lean_chars(w) for w in builtin) + "]"]
+    ext_tabs, ext_item, ext_drop = external_tables(common, fp, sf)
+    lines += ["", "/-- dict-valued attributes of a module that `external_project.obj2dict` writes and `dict2obj` reads back as",
+              "    tables of entities (sorted; observed on a stub project sent through both) -/",
+              "def externalExportTables : List (List Char) := [" + ", ".join(lean_chars(w) for w in ext_tabs) + "]",
+              "/-- a loaded table holds, under each key, the object built from THAT entry's item (also when the module owns",
+              "    an entity with the item's own name) -/",
+              f"def externalEntryFromItsItem : Bool := {'true' if ext_item else 'false'}",
+              "/-- an entity that is external in the exporting project is written as null and skipped when read -/",
+              f"def externalOfExternalDropped : Bool := {'true' if ext_drop else 'false'}"]
     lines += ["", "end Ford.Generated.C06", ""]
     common.write_if_changed(common.LEAN / "FordModel" / "Generated" / "C06.lean", "\n".join(lines))
     return {"regex": {a: (t, f, g) for a, t, f, g, _ in rx}, "regex_consulted": consulted, "exported": exported,
-            "slot_writes": writes, "binding": (roles, attrs, first_match), "intrinsic_mods": builtin}
+            "slot_writes": writes, "binding": (roles, attrs, first_match), "intrinsic_mods": builtin,
+            "external_tables": (ext_tabs, ext_item, ext_drop)}
